@@ -857,6 +857,18 @@ impl<'tcx> Cx<'tcx> {
             cur = gg.parent.map(|p| self.tcx.generics_of(p));
         }
         chain.reverse();
+        // trait bounds on type parameters (own + inherited predicates)
+        let mut bounds: HashMap<u32, Vec<String>> = HashMap::new();
+        let preds = self.tcx.predicates_of(def).instantiate_identity(self.tcx);
+        for (clause, _) in preds {
+            let clause = clause.skip_norm_wip();
+            if let Some(tp) = clause.as_trait_clause() {
+                let tp = tp.skip_binder();
+                if let ty::Param(p) = *tp.self_ty().kind() {
+                    bounds.entry(p.index).or_default().push(self.path(tp.def_id()));
+                }
+            }
+        }
         for gg in chain {
             for p in gg.own_params.iter() {
                 let kind = match p.kind {
@@ -864,12 +876,14 @@ impl<'tcx> Cx<'tcx> {
                     ty::GenericParamDefKind::Type { .. } => "ty",
                     ty::GenericParamDefKind::Const { .. } => "const",
                 };
-                v.push(
-                    J::obj()
-                        .with("n", jstr(p.name.to_string()))
-                        .with("index", J::I(p.index as i128))
-                        .with("k", jstr(kind)),
-                );
+                let mut o = J::obj()
+                    .with("n", jstr(p.name.to_string()))
+                    .with("index", J::I(p.index as i128))
+                    .with("k", jstr(kind));
+                if let Some(b) = bounds.get(&p.index) {
+                    o.put("bounds", J::A(b.iter().map(|x| jstr(x.clone())).collect()));
+                }
+                v.push(o);
             }
         }
         J::A(v)
